@@ -327,8 +327,9 @@ func (w *WAL) newSegment(ID, baseIndex uint64) types.SegmentInfo {
 		MinIndex:  baseIndex,
 		SizeLimit: uint32(w.segmentSize),
 
-		// TODO make these configurable
-		Codec:      CodecBinaryV1,
+		// Record the codec that will actually encode the entries so that Open can
+		// refuse a different codec later (and accept this one again).
+		Codec:      w.codec.ID(),
 		CreateTime: time.Now(),
 	}
 }
